@@ -32,7 +32,7 @@ M = [
  ("m14","C06","robotools/worklists/base.py","            multi_disp = math.floor(self.max_volume / volume)","            multi_disp = math.ceil(self.max_volume / volume)"),
  ("m15","C07","robotools/worklists/utils.py","            list(numpy.array(dsts)[order]),\n","            list(numpy.array(dsts)[numpy.argsort(dsts)]),\n"),
  ("m16","C07","robotools/fluenttools/worklist.py","            if npartitions > 1:\n                self.commit()","            if npartitions > 2:\n                self.commit()"),
- ("m17","C07","robotools/worklists/base.py","        if self.diti_mode:\n            self.append(\"W;\")\n            return\n\n        if not scheme in {1, 2, 3, 4}:","        if self.diti_mode and scheme != 4:\n            self.append(\"W;\")\n            return\n\n        if not scheme in {1, 2, 3, 4}:"),
+ ("m17","C07","robotools/worklists/base.py","        if self.diti_mode:\n            self.append(\"W;\")\n            return\n","        if self.diti_mode and scheme != 4:\n            self.append(\"W;\")\n            return\n"),
  ("m18","C08","robotools/evotools/utils.py","        return 1 + c * labware.virtual_rows + r","        return 1 + c * max(labware.virtual_rows, 2) + r"),
  ("m19","C08","robotools/fluenttools/utils.py","    return 1 + c * labware.n_rows + r","    return 1 + c * labware.n_rows + (r if labware.n_rows != 5 else labware.n_rows - 1 - r)"),
  ("m20","C09","robotools/worklists/base.py","            f\"D;{rack_label};{rack_id};{rack_type};{position};{tube_id};{volume_s};{liquid_class};{tip_type};{tipv};{forced_rack_type}\"","            f\"D;{rack_label};{rack_type};{rack_id};{position};{tube_id};{volume_s};{liquid_class};{tip_type};{tipv};{forced_rack_type}\"" if False else "            f\"D;{rack_label};{rack_id};{rack_type};{position};{tube_id};{volume_s};{liquid_class};{tip_type};{tipv};{rack_type and forced_rack_type}\""),
